@@ -70,7 +70,7 @@ var unboundedIsExtra bool
 
 var unboundedPass = map[string]string{
 	// additional pass: every schedule without preemption bound under the partial-order reduction
-	"C08/lin": "thorough", "C08/tx": "thorough", "C09/tx": "thorough",
+	"C08/lin": "thorough", "C08/tx": "thorough", "C08/hist": "thorough", "C09/tx": "thorough",
 	"C11/block": "thorough", "C12/end": "thorough",
 }
 
@@ -82,7 +82,7 @@ type exploreGroup struct {
 func exploreGroupsFor(id string) []exploreGroup {
 	switch id {
 	case "C08":
-		return []exploreGroup{{"lin", 2, 3}, {"tx", 2, 3}}
+		return []exploreGroup{{"lin", 2, 3}, {"tx", 2, 3}, {"hist", 2, 3}}
 	case "C09":
 		return []exploreGroup{{"tx", 2, 3}}
 	}
@@ -97,6 +97,17 @@ func exploreScenarios(id, group, tier string) []*Scenario {
 		return linScenarios(tier)
 	case "C08/tx", "C09/tx":
 		return txScenarios(tier)
+	case "C08/hist":
+		return histScenarios(tier)
+	case "C08/racepairs":
+		// the command pairs of the race check, for C08's companion pass in the race build
+		var out []*Scenario
+		for _, sc := range raceScenarios(tier) {
+			if strings.HasPrefix(sc.Name, "pair/") || strings.HasPrefix(sc.Name, "exec/") {
+				out = append(out, sc)
+			}
+		}
+		return out
 	}
 	return exploreScenariosExtra(id, group, tier)
 }
@@ -128,6 +139,22 @@ func runCheck(id, tier string) int {
 	}
 	rep := newReport(id, tier, level)
 	ran := false
+	if os.Getenv("VERIF_RACE_COMPANION") != "" {
+		// second pass of bin/verif for this property, in the race build
+		rep.MergePrefix = "race_companion_"
+		b := 1
+		if tier == "thorough" {
+			b = 2
+		}
+		switch id {
+		case "C08":
+			runRaceCompanion("C08", []string{"hist", "racepairs"}, b, tier, rep)
+		default:
+			fmt.Fprintln(os.Stderr, "no race companion pass for", id)
+			return 2
+		}
+		return rep.finish()
+	}
 	if id == "C17" {
 		rep.Assume = append(rep.Assume, assumptions["C17"]...)
 		runScanCheck(tier, rep)
